@@ -241,6 +241,9 @@ class NestedExtensionArray(ExtensionArray):
         if isinstance(item, np.ndarray):
             if len(item) == 0:
                 return type(self)(pa.chunked_array([], type=self._chunked_array.type), validate=False)
+            if item.dtype.kind in "iu" and (item < 0).any():
+                # Negative positions count from the end, pyarrow's take does not support them
+                item = np.where(item < 0, item + len(self), item)
             pa_item = pa.array(item)
             if item.dtype.kind in "iu":
                 return type(self)(self._chunked_array.take(pa_item), validate=False)
